@@ -339,16 +339,25 @@ theorem frac6_fixed (r : Nat) (h : r < 1000000) : frac6 (((fixedDigits 10 6 r).m
   rw [List.take_append_of_le_length (by omega), List.take_of_length_le (by omega)]
   exact ofDigitsB_fixedDigits 10 (by decide) 6 r (by simpa using h)
 
+theorem dval_ascii (u : UC) (c : Char) (h : isAsciiDigit c = true) : u.dval c = digitVal c := by
+  simp [UC.dval, isAsciiDigit_lt_128 h]
+
+theorem map_dval_ascii (u : UC) (t : Text) (h : ∀ c ∈ t, isAsciiDigit c = true) : t.map u.dval = t.map digitVal :=
+  List.map_congr_left (fun c hc => dval_ascii u c (h c hc))
+
+theorem natOf_ascii (u : UC) (t : Text) (h : ∀ c ∈ t, isAsciiDigit c = true) : u.natOf t = natOfText t := by
+  simp only [UC.natOf, natOfText, map_dval_ascii u t h]
+
 theorem parseReal_unsigned (u : UC) (neg : Bool) (micro : Nat) :
     (let body := natText (micro / 1000000) ++ '.' :: fracText micro
      let d1 := body.takeWhile u.isDigit
      if d1.isEmpty then none else
      match body.dropWhile u.isDigit with
-     | [] => some (Val.real neg (natOfText d1 * 1000000))
+     | [] => some (Val.real neg (u.natOf d1 * 1000000))
      | '.' :: r =>
        let d2 := r.takeWhile u.isDigit
        if d2.isEmpty then none
-       else if (r.dropWhile u.isDigit).isEmpty then some (.real neg (natOfText d1 * 1000000 + frac6 (d2.map digitVal)))
+       else if (r.dropWhile u.isDigit).isEmpty then some (.real neg (u.natOf d1 * 1000000 + frac6 (d2.map u.dval)))
        else none
      | _ => none) = some (.real neg micro) := by
   have hdot : ∀ c, ('.' :: fracText micro).head? = some c → u.isDigit c = false := by
@@ -361,8 +370,9 @@ theorem parseReal_unsigned (u : UC) (neg : Bool) (micro : Nat) :
   obtain ⟨d, ds, h⟩ := natText_cons (micro / 1000000)
   obtain ⟨e, es, h'⟩ := fracText_cons micro
   simp only [t1, t2, s1, s2]
-  have hf : frac6 ((fracText micro).map digitVal) = micro % 1000000 := frac6_fixed _ (Nat.mod_lt _ (by decide))
-  rw [hf, natOfText_natText]
+  have hf : frac6 ((fracText micro).map u.dval) = micro % 1000000 := by
+    rw [map_dval_ascii u _ (fracText_all_digit micro)]; exact frac6_fixed _ (Nat.mod_lt _ (by decide))
+  rw [hf, natOf_ascii u _ (natText_all_digit _), natOfText_natText]
   rw [h, h']
   simp only [List.isEmpty_cons, Bool.false_eq_true, if_false, List.isEmpty_nil, if_true]
   congr 2
